@@ -196,6 +196,7 @@ LINEAR = ("Translation", "EulerRotation", "QuaternionRotation", "IsotropicScalin
 NONRIGID = ("DisplacementFieldTransform", "StationaryVelocityFieldTransform", "FreeFormDeformation", "StationaryVelocityFreeFormDeformation")
 COMPOSITE = ("RigidTransform", "AffineTransform", "SequentialTransform", "MultiLevelTransform")
 IMAGES = ("Image", "ImageBatch", "FlowField", "FlowFields")
+NBATCH = 3
 
 
 def shape_of(D):
@@ -252,13 +253,14 @@ def build(spec):
         from deepali.data import FlowField, FlowFields, Image, ImageBatch
 
         S = shape_of(D)
-        grids = [make_grid(D, "base"), make_grid(D, "other", ac=False)]
+        # batches: NBATCH items, every item with its OWN, different Grid object
+        grids = [make_grid(D, "base"), make_grid(D, "other", ac=False), make_grid(D, "third")]
         if typ == "ImageBatch":
-            return ImageBatch(R.vals((2, 2) + S, 1), grids)
+            return ImageBatch(R.vals((NBATCH, 2) + S, 1), grids)
         if typ == "Image":
             return Image(R.vals((2,) + S, 1), grids[0])
         if typ == "FlowFields":
-            return FlowFields(R.vals((2, D) + S, 2, -0.1, 0.1), grids, Axes.WORLD)
+            return FlowFields(R.vals((NBATCH, D) + S, 2, -0.1, 0.1), grids, Axes.WORLD)
         return FlowField(R.vals((D,) + S, 2, -0.1, 0.1), grids[0], Axes.GRID)
     return build_transform(spec)
 
@@ -509,7 +511,7 @@ def image_menu(typ, D):
         "conv(delta)": lambda x, c: x.conv(c.t("kernel", torch.tensor([1.0]))),
         "sample(other-grid)": lambda x, c: x.sample(g2(x)),
         "sample(own-grid)": lambda x, c: x.sample(x.grids() if batch else x.grid()),
-        "sample(coords)": lambda x, c: x.sample(c.t("coords", R.vals(((2,) if batch else ()) + S + (D,), 4, -0.9, 0.9))),
+        "sample(coords)": lambda x, c: x.sample(c.t("coords", R.vals(((NBATCH,) if batch else ()) + S + (D,), 4, -0.9, 0.9))),
         "tensor()": lambda x, c: x.tensor(),
         "clone()": lambda x, c: x.clone(),
         "copy.copy": lambda x, c: copy.copy(x),
@@ -705,6 +707,13 @@ def mk_ops(spec):
 DEEP = {"copy.deepcopy", "pickle", "clone"}
 
 
+def item_indices(spec):
+    """Item indices whose grid is mutated: first, second and last item of a batch; 0 for a single image."""
+    if spec["type"] in ("ImageBatch", "FlowFields"):
+        return sorted({0, 1, NBATCH - 1})
+    return [0]
+
+
 def mut_ops(spec):
     fam = family(spec)
     if fam == "Grid":
@@ -712,7 +721,11 @@ def mut_ops(spec):
     if fam == "Cube":
         return ["center_", "extent_", "direction_", "edit:center", "edit:extent"]
     if fam == "image":
-        return ["add_", "edit:entry0", "grid_", "edit:grid.center", "grid.align_corners_", "grid.spacing_"]
+        ops = ["add_", "edit:entry0", "grid_"]
+        for k in item_indices(spec):
+            ops += [f"edit:grid.center@{k}", f"edit:grid.spacing@{k}", f"grid.center_@{k}", f"grid.origin_@{k}", f"grid.spacing_@{k}",
+                    f"grid.direction_@{k}", f"grid.align_corners_@{k}"]
+        return ops
     ops = ["grid_", "edit:grid.center", "grid.align_corners_", "condition_", "update", "clear_buffers", "edit:params", "edit:buffers", "requires_grad_(False)", "flip:invert"]
     if spec["type"] not in COMPOSITE:
         ops += ["data_", "unlink_"]
@@ -728,7 +741,8 @@ def reduced_ops(spec):
     if fam == "Cube":
         return mk + ["acc:center(tuple)"], ["extent_", "edit:center"]
     if fam == "image":
-        return mk + ["acc:grid(other)"], ["add_", "edit:grid.center", "grid.align_corners_"]
+        last = item_indices(spec)[-1]
+        return mk + ["acc:grid(other)"], ["add_", "edit:grid.center@0", "grid.align_corners_@1" if last else "grid.align_corners_@0", f"grid.center_@{last}"]
     mk2 = mk + ["acc:grid(other)", "acc:inverse()"]
     mu = ["edit:params", "edit:grid.center", "grid_", "update"]
     if spec["type"] not in COMPOSITE:
@@ -786,19 +800,32 @@ def apply_mut(spec, obj, how):
         return True
     if fam == "image":
         batch = spec["type"] in ("ImageBatch", "FlowFields")
-        g = obj.grid(0) if batch else obj.grid()
         if how == "add_":
             obj.add_(1.0)
-        elif how == "edit:entry0":
+            return True
+        if how == "edit:entry0":
             obj.as_subclass(Tensor)[0].zero_()
-        elif how == "grid_":
+            return True
+        if how == "grid_":
             obj.grid_(make_grid(D, "third"))
-        elif how == "edit:grid.center":
+            return True
+        what, _, k = how.partition("@")
+        g = obj.grid(int(k)) if batch else obj.grid()
+        if what == "edit:grid.center":
             g.center().add_(1.0)
-        elif how == "grid.align_corners_":
-            g.align_corners_(not g.align_corners())
-        elif how == "grid.spacing_":
+        elif what == "edit:grid.spacing":
+            g.spacing().mul_(2.0)
+        elif what == "grid.center_":
+            g.center_(tuple(_vecD(D, 5).tolist()))
+        elif what == "grid.origin_":
+            g.origin_(tuple(_vecD(D, 7).tolist()))
+        elif what == "grid.spacing_":
             g.spacing_(tuple(_vecD(D, 6, 0.5, 2.0).tolist()))
+        elif what == "grid.direction_":
+            rot = ((0.0, -1.0), (1.0, 0.0)) if D == 2 else ((0.0, -1.0, 0.0), (1.0, 0.0, 0.0), (0.0, 0.0, 1.0))
+            g.direction_(rot)
+        elif what == "grid.align_corners_":
+            g.align_corners_(not g.align_corners())
         else:
             raise KeyError(how)
         return True
